@@ -653,8 +653,27 @@ def run_payloads(ctx):
     jobs = [(c, {}) for c in cfgs] + [j for j in hist.crowded_jobs(cfgs) if c11.has_cells(ctx, j[0])]
     if not ctx.quick():
         jobs += hist.variations(ctx, cfgs, 30)
-    return [{"config": c, "seed": ctx.seed, "max_legs": ctx.n(120, 400), "overrides": ov, "record_fresh": True,
-             "record_instates": False} for (c, ov) in jobs]
+    pls = [{"config": c, "seed": ctx.seed, "max_legs": ctx.n(120, 400), "overrides": ov, "record_fresh": True,
+            "record_instates": False} for (c, ov) in jobs]
+    # extended dipoles on a composite-level cell system: molecules straddle cell boundaries (the active point mass
+    # lies in another cell than its composite object), many committed cell-veto events with a target
+    for c in cfgs:
+        if c.endswith("dipoles/cell_veto.ini"):
+            for k, cells in enumerate(["4, 4, 4", "5, 4, 4"] if ctx.quick() else ["4, 4, 4", "5, 4, 4", "4, 5, 6", "5"]):
+                pls.append({"config": c, "seed": ctx.seed + k, "max_legs": ctx.n(400, 1200), "record_fresh": True,
+                            "record_instates": False, "overrides": extended_dipoles(8 if k % 2 == 0 else 6, cells)})
+    return pls
+
+
+def extended_dipoles(nroots, cells):
+    return {"RandomInputHandler": {"number_of_root_nodes": nroots},
+            "DipoleRandomNodeCreator": {"min_initial_dipole_separation": 0.12, "max_initial_dipole_separation": 0.2},
+            "HarmonicPotential": {"equilibrium_separation": 0.16},
+            "DipoleMonteCarloEstimator": {"dipole_separation": 0.2},
+            "CuboidPeriodicCells": {"cells_per_side": cells},
+            "CoulombNearby": {"number_event_handlers": 5 * nroots},
+            "CoulombSurplus": {"number_event_handlers": 5 * nroots},
+            "Harmonic": {"number_event_handlers": 5 * nroots}, "Repulsive": {"number_event_handlers": 5 * nroots}}
 
 
 def encode_tcase(tr, max_legs, si):
@@ -759,7 +778,50 @@ def run_oracle(tr):
             for t in near_t:
                 if t in cell_of and not nearby(cell_of[t], occ["active_cell"]):
                     out.append((n, "nearby target %r does not sit in a nearby cell" % (t,)))
+    # committed cell-veto events: the targets handed to send_out_state are the occupants of ONE cell that is not
+    # nearby the recorded active cell (a walker item translated to the active cell); a target in a nearby cell is
+    # treated twice (the nearby tagger already pairs it with the active unit)
+    import tracecheck as TC
+    nveto = 0
+    for n, leg in enumerate(tr["legs"]):
+        if leg.get("pick") is None or not leg.get("occ"):
+            continue
+        h = meta["handlers"][leg["pick"]]
+        tg = meta["taggers"][h["tagger"]]
+        if "CellVetoEventHandler" not in tg["handler_bases"]:
+            continue
+        args = leg.get("args")
+        if not args or not any(args):
+            continue                      # target cell empty (or arguments not recorded)
+        si = tg.get("internal_state")
+        if si is None or si < 0 or leg["occ"][si] is None:
+            out.append((n, "cell-veto handler %s is not connected to a recorded occupancy" % h["class"]))
+            continue
+        ist = meta["internal_states"][si]
+        counts, layers, level = ist["cells_per_side"], ist["neighbor_layers"], ist["cell_level"]
+        occ = leg["occ"][si]
+        where = {tuple(i): [int(x) for x in k.split(",")] for k, ids in occ["occupants"].items() for i in ids}
+        targets = [tuple(u["id"]) for a in args if a for u in a if len(u["id"]) == level]
+        nveto += 1
+        if occ["active_cell"] is None:
+            out.append((n, "cell-veto event committed without a recorded active cell"))
+            continue
+        cells = []
+        for t in targets:
+            if t not in where:
+                out.append((n, "cell-veto target %r is not an occupant of any cell (active unit %r)"
+                            % (t, occ["active_id"])))
+            else:
+                cells.append(where[t])
+        if any(c != cells[0] for c in cells):
+            out.append((n, "cell-veto targets %r come from different cells %r" % (targets, cells)))
+        for t, c in zip(targets, cells):
+            if all(min((a - b) % m, (b - a) % m) <= layers for a, b, m in zip(c, occ["active_cell"], counts)):
+                out.append((n, "cell-veto event targets unit %r in cell %r, which is nearby the active cell %r of unit "
+                            "%r: treated twice (the nearby tagger already pairs them)"
+                            % (t, c, occ["active_cell"], occ["active_id"])))
     tr["_c10_checked"] = nchecked
+    tr["_c10_veto"] = nveto
     return out
 
 
@@ -971,6 +1033,7 @@ def run(ctx, occ_override=None, fm_override=None, run_payload_override=None):
         "factor_file_load_errors": dict(Counter(o["load"][1] for o in fm_out if "load" in o and o["load"][0] == "EXC")),
         "real_runs": {"traces": len(rtrs), "legs": sum(len(t["legs"]) for t in rtrs),
                       "legs_with_partition_checked": sum(t.get("_c10_checked", 0) for t in rtrs),
+                      "cell_veto_events_with_target_checked": sum(t.get("_c10_veto", 0) for t in rtrs),
                       "coq_cases": rneval, "configs": sorted({t["payload"]["config"] for t in rtrs})},
     }
     distinct = len({json.dumps(s.get("state"), sort_keys=True) + json.dumps(s.get("update_args"))
